@@ -60,11 +60,24 @@ type poolEnv struct {
 type poolRecorder struct {
 	mu       sync.Mutex
 	payloads [][]byte
+	dsts     []int // destination each payload arrived at
 }
+
+// poolDest is one destination (normal, error, per-level ...) feeding the shared recorder.
+type poolDest struct {
+	id  int
+	rec *poolRecorder
+}
+
+func (d *poolDest) Write(p []byte) (int, error) { return d.rec.writeFrom(d.id, p) }
+
+func (r *poolRecorder) clear() { r.payloads, r.dsts = nil, nil }
 
 var poolSlow int32 // the recorder yields inside Write, keeping the caller's PrintCtx busy for longer
 
-func (r *poolRecorder) Write(p []byte) (int, error) {
+func (r *poolRecorder) Write(p []byte) (int, error) { return r.writeFrom(0, p) }
+
+func (r *poolRecorder) writeFrom(dst int, p []byte) (int, error) {
 	if atomic.LoadInt32(&poolSlow) != 0 {
 		runtime.Gosched()
 		if len(p)%3 == 0 {
@@ -73,6 +86,7 @@ func (r *poolRecorder) Write(p []byte) (int, error) {
 	}
 	r.mu.Lock()
 	r.payloads = append(r.payloads, append([]byte(nil), p...))
+	r.dsts = append(r.dsts, dst)
 	r.mu.Unlock()
 	return len(p), nil
 }
@@ -98,7 +112,13 @@ func newPoolEnv(nLoggers int) *poolEnv {
 	e.loggers = append(e.loggers, root)
 	for i := 1; i < nLoggers; i++ {
 		parent := e.loggers[(i-1)/2]
-		c := parent.New(fmt.Sprintf("c%d", i)).SetWriter(e.rec).SetErrorWriter(e.rec)
+		c := parent.New(fmt.Sprintf("c%d", i)).SetWriter(&poolDest{10 * i, e.rec}).SetErrorWriter(&poolDest{10*i + 1, e.rec})
+		if i%2 == 1 { // per-level destinations for several severities on the same logger
+			c.AddLevelWriter(slog.InfoLevel, &poolDest{10*i + 2, e.rec})
+			c.AddLevelWriter(slog.WarnLevel, &poolDest{10*i + 3, e.rec})
+			c.AddLevelWriter(slog.ErrorLevel, &poolDest{10*i + 4, e.rec})
+			c.AddLevelWriter(slog.AlwaysLevel, &poolDest{10*i + 5, e.rec})
+		}
 		switch i % 3 {
 		case 0:
 			c.SetJSONMode(true)
@@ -335,7 +355,8 @@ func poolStress(args []string) int {
 	wg.Wait()
 	slog.VerifHook = nil
 	concurrent := env.rec.payloads
-	env.rec.payloads = nil
+	concurrentDst := env.rec.dsts
+	env.rec.clear()
 
 	// ---- sequential reference: every call alone
 	for _, e := range events {
@@ -343,10 +364,11 @@ func poolStress(args []string) int {
 	}
 	reCall := regexp.MustCompile(`call#(\d{6})#`)
 	byID := map[int][][]byte{}
+	dstByID := map[int][]int{}
 	torn := 0
 	blanks := 0
 	atomic.StoreInt32(&poolSlow, 0)
-	for _, p := range concurrent {
+	for pi, p := range concurrent {
 		if string(p) == "\n" {
 			blanks++
 			continue
@@ -363,12 +385,14 @@ func poolStress(args []string) int {
 		}
 		id, _ := strconv.Atoi(string(ms[0][1]))
 		byID[id] = append(byID[id], p)
+		dstByID[id] = append(dstByID[id], concurrentDst[pi])
 	}
 	wantBlanks := 0
 	for _, c := range calls {
-		env.rec.payloads = nil
+		env.rec.clear()
 		env.issue(c)
 		ref := env.rec.payloads
+		refDst := env.rec.dsts
 		if c.Blank {
 			if len(ref) == 1 && string(ref[0]) == "\n" {
 				wantBlanks++
@@ -376,17 +400,20 @@ func poolStress(args []string) int {
 			continue
 		}
 		out.emit(map[string]any{"ev": "call", "call": c.ID, "admitted": len(ref) > 0, "thru": c.Thru})
-		for _, p := range byID[c.ID] {
+		for k, p := range byID[c.ID] {
 			same := false
-			if len(ref) == 1 {
+			if len(ref) == 1 && refDst[0] == dstByID[c.ID][k] { // same bytes at the same destination
 				if c.Thru {
 					same = bytes.Equal(p, ref[0])
 				} else {
 					same = bytes.Equal(normTime(p), normTime(ref[0]))
 				}
 			}
-			rec := map[string]any{"ev": "deliver", "call": c.ID, "same": same, "n": len(p)}
+			rec := map[string]any{"ev": "deliver", "call": c.ID, "same": same, "n": len(p), "dst": dstByID[c.ID][k]}
 			if !same {
+				if len(refDst) == 1 {
+					rec["want_dst"] = refDst[0]
+				}
 				rec["got"] = string(p)
 				if len(ref) == 1 {
 					rec["want"] = string(ref[0])
@@ -417,6 +444,7 @@ type histEnv struct {
 	loggers [3]*slog.Entry // logfmt, json, colored
 	ts      time.Time
 	group   slog.Attr
+	reused  slog.Attrs
 }
 
 type readingMarshaller struct{}
@@ -488,6 +516,22 @@ func (e *histEnv) emit(id int, viaVerb bool) {
 		attrs = slog.NewAttrs("z", 1, "a", 2, "z", 3, slog.Group("g", "y", 1, "x", 2, "y", 3), "a", 4)
 	case 14: // huge attribute value
 		attrs = slog.NewAttrs("big", strings.Repeat("x", 70000), "after", 1)
+	case 15: // the SAME Attrs value handed in again and again, duplicate and unsorted keys
+		if e.reused == nil {
+			e.reused = slog.Attrs{slog.Int("z", 1), slog.Int("a", 2), slog.Int("z", 3), slog.Int("m", 4), slog.Int("a", 5)}
+		}
+		attrs = e.reused
+	}
+	// the instant of a record: by default one fixed instant in its own zone; a few shapes carry
+	// the same instant in another zone, or another instant
+	ts := e.ts
+	switch shape {
+	case 3, 5:
+		ts = e.ts.UTC() // same instant, other zone
+	case 6:
+		ts = e.ts.In(time.FixedZone("Y", -7*3600-1800))
+	case 1:
+		ts = e.ts.Add(90 * time.Minute)
 	}
 	defer func() { _ = recover() }()
 	if viaVerb {
@@ -496,7 +540,7 @@ func (e *histEnv) emit(id int, viaVerb bool) {
 	}
 	var pcs [1]uintptr
 	runtime.Callers(1, pcs[:])
-	l.WriteThru(context.Background(), sev, e.ts, pcs[0], msg, attrs)
+	l.WriteThru(context.Background(), sev, ts, pcs[0], msg, attrs)
 }
 
 func poolHistory(args []string) int {
@@ -534,7 +578,7 @@ func poolHistory(args []string) int {
 		}
 		runtime.GC()
 		runtime.GC() // sync.Pool is emptied after two collections: the next Get builds a fresh object
-		env.rec.payloads = nil
+		env.rec.clear()
 		env.emit(probe, false)
 		var p []byte
 		if len(env.rec.payloads) == 1 {
@@ -550,7 +594,7 @@ func poolHistory(args []string) int {
 		for i, h := range b.History {
 			env.emit(h, i%2 == 1) // alternate WriteThru and a real verb
 		}
-		env.rec.payloads = nil
+		env.rec.clear()
 		env.emit(b.Probe, false)
 		var got []byte
 		if len(env.rec.payloads) == 1 {
